@@ -59,8 +59,8 @@ FeatLessCase(a, b) == KindLess(a, b) \/ (a.kind = b.kind /\ RefLess(a.r, b.r))
 SameId(a, b) == a.kind = b.kind /\ a.r = b.r /\ VerOf(a) = VerOf(b)
 
 (* ------------------------------ text cases ------------------------------- *)
-CoreStrings(full) ==
-  {"node", "changeset", "zzz", "/", ":", "-", "+", "7", "0"} \cup (IF full THEN {" "} ELSE {})
+CoreStrings(withSpace) ==
+  {"node", "changeset", "zzz", "/", ":", "-", "+", "7", "0"} \cup (IF withSpace THEN {" "} ELSE {})
 SeqsUpTo(S, n) == UNION {TupleOf(S, k) : k \in 0 .. n}
 
 KindSegs == {<<k>> : k \in KindNames} \cup
@@ -76,8 +76,10 @@ VerSegs  == {<< >>, <<":">>, <<":", "-">>, <<":", "0">>, <<":", "1">>, <<":", "3
              <<":", "1099511627776">>, <<":", "99999999999999999999">>, <<":", "-", ":">>}
 Templates == {k \o <<"/">> \o r \o v : k \in KindSegs, r \in RefSegs, v \in VerSegs}
 
+\* quick: 9 core tokens, up to 4; thorough: up to 5, and up to 4 with the blank as a tenth token
 TextCases(full) ==
-  {[t |-> "text", toks |-> s] : s \in SeqsUpTo(CoreStrings(full), IF full THEN 5 ELSE 4) \cup Templates}
+  {[t |-> "text", toks |-> s] :
+      s \in SeqsUpTo(CoreStrings(FALSE), IF full THEN 5 ELSE 4) \cup (IF full THEN SeqsUpTo(CoreStrings(TRUE), 4) ELSE {}) \cup Templates}
 
 \* every string used in a text case is a token of PackedIdsText
 ASSUME \A seg \in KindSegs \cup RefSegs \cup VerSegs : \A i \in 1 .. Len(seg) : \E t \in Tokens : t.s = seg[i]
